@@ -118,6 +118,20 @@ theorem direct_fields_match :
     agrees TagHeader_fld_typ (0, 4) ∧ agrees TagHeader_fld_size (HK.tag.sizeOff, 4) ∧ agrees TagHeader_size (HK.tag.hsize, 8) ∧
     agrees BootInformationHeader_fld_total_size (HK.bi.sizeOff, 4) ∧ agrees BootInformationHeader_size (HK.bi.hsize, 8) := by decide
 
+/-- the two ELF section-header layouts (`#[repr(C, packed)]`): the fields `elfSecAt`, `elfName` and `elfStrTabAddr` read, at
+    the offsets and widths they read them (ELF32: name 0, type 4, flags 8, address 12, size 20, alignment 32, all 4 bytes wide,
+    entries of 40 bytes; ELF64: name 0/4, type 4/4, flags 8/8, address 16/8, size 32/8, alignment 48/8, entries of 64 bytes);
+    the accessor bodies return exactly these fields (`Fns.tbl_elf32_eq`, `Fns.tbl_elf64_eq`) -/
+theorem elf_inner_layouts_match :
+    agrees ElfSectionInner32_fld_name_index (0, 4) ∧ agrees ElfSectionInner32_fld_typ (4, 4) ∧
+    agrees ElfSectionInner32_fld_flags (8, 4) ∧ agrees ElfSectionInner32_fld_addr (12, 4) ∧
+    agrees ElfSectionInner32_fld_size (20, 4) ∧ agrees ElfSectionInner32_fld_addralign (32, 4) ∧
+    agrees ElfSectionInner32_size (40, 1) ∧
+    agrees ElfSectionInner64_fld_name_index (0, 4) ∧ agrees ElfSectionInner64_fld_typ (4, 4) ∧
+    agrees ElfSectionInner64_fld_flags (8, 8) ∧ agrees ElfSectionInner64_fld_addr (16, 8) ∧
+    agrees ElfSectionInner64_fld_size (32, 8) ∧ agrees ElfSectionInner64_fld_addralign (48, 8) ∧
+    agrees ElfSectionInner64_size (64, 1) := by decide
+
 /-- the VBE control / mode blocks: the fields in the order the model lists them (`vbeControlFields` splits the 4-byte
     signature into bytes, `vbeModeFields` splits each 2-byte colour field into mask size and position) -/
 def vbeControlFacts : List (Option (Nat × Nat)) :=
